@@ -136,6 +136,9 @@ func (s *sim) checkEngineArgs(b *blockRec, calls []engineCall) {
 	switch body := b.env.Body.(type) {
 	case *bellatrix.BeaconBlockBody:
 		blockHash, parentHash, ts = body.ExecutionPayload.BlockHash, body.ExecutionPayload.ParentHash, uint64(body.ExecutionPayload.Timestamp)
+		if b.kinds&kPayload == 0 {
+			hasPayload = false // before the merge: an empty payload, execution is not enabled
+		}
 	case *capella.BeaconBlockBody:
 		blockHash, parentHash, ts, nw = body.ExecutionPayload.BlockHash, body.ExecutionPayload.ParentHash, uint64(body.ExecutionPayload.Timestamp), len(body.ExecutionPayload.Withdrawals)
 	case *deneb.BeaconBlockBody:
